@@ -491,4 +491,33 @@ def execBlock (fuel : Nat) (w : World) (txs : List Tx) : World × List Status :=
   let w' := r.1
   ({ w' with code := dropCode w'.code w'.st.dead, st := { w'.st with dead := [] } }, r.2)
 
+/-! ### End of block: reward escrow and the refund mover (`VMExecutor.after`) -/
+
+/-- The refund/reward escrow: (due height, beneficiary, amount). In the code: storage of the pseudo-accounts
+    `sha256("refund" ++ height)`, written by `RefundManager.Add`, emptied by `CheckAndMove`. -/
+abbrev Escrow := List (Nat × Addr × Nat)
+
+def escrowTotal : Escrow → Nat
+  | [] => 0
+  | (_, _, v) :: r => v + escrowTotal r
+
+/-- entries due at height `h`, as the list `CheckAndMove h` pays out -/
+def dueAt : Escrow → Nat → List (Addr × Nat)
+  | [], _ => []
+  | (k, a, v) :: r, h => if k = h then (a, v) :: dueAt r h else dueAt r h
+
+def notDueAt : Escrow → Nat → Escrow
+  | [], _ => []
+  | (k, a, v) :: r, h => if k = h then notDueAt r h else (k, a, v) :: notDueAt r h
+
+/-- `RefundManager.CheckAndMove(h)`: credit every entry due at `h`, remove it from the escrow. -/
+def checkAndMove (b : Bal) (e : Escrow) (h : Nat) : Bal × Escrow :=
+  (refundMove b (dueAt e h), notDueAt e h)
+
+/-- `VMExecutor.after` at height `h`: `RefundManager.Add` of what the block produced (`added`: the block reward
+    computed by `RewardCalculator.CalculateReward` — an input, its float arithmetic is C01's subject — and stake
+    refunds), then `CheckAndMove(h)`. -/
+def afterBlock (b : Bal) (e : Escrow) (h : Nat) (added : Escrow) : Bal × Escrow :=
+  checkAndMove b (e ++ added) h
+
 end Rangers.Ledger
